@@ -75,7 +75,7 @@ package paillier
 //@   ensures [C14.formula] err == nil ==> (m != nil && fresh(m) && val(m) == (((powmod(val(c), val(privateKey.LambdaN), nsq(privateKey.PublicKey)) - 1) / val(privateKey.PublicKey.N)) * invmod((powmod(val(privateKey.PublicKey.N) + 1, val(privateKey.LambdaN), nsq(privateKey.PublicKey)) - 1) / val(privateKey.PublicKey.N), val(privateKey.PublicKey.N))) % val(privateKey.PublicKey.N))
 
 //@ func (Proof).Verify
-//@   trusted goroutines, select and GenerateXs (floats, channels) are outside the generator subset; contract from reading the code: total on non-nil arguments (after fix 5369561), writes nothing the caller can see
+//@   trusted the 13-way verification fan-out (goroutines writing a shared flag, select) is outside the generator subset (GenerateXs itself is under contract); contract from reading the code: total on non-nil arguments (after fix 5369561), writes nothing the caller can see
 //@   props C06 C11
 //@   requires pkN != nil && k != nil && ecdsaPub != nil && wfPoint(ecdsaPub)
 //@   requires [proof-entries-present] forall i in 0..13 :: pf[i] != nil
@@ -83,7 +83,42 @@ package paillier
 //@   ensures [C11.acceptance-is-a-function-of-the-inputs] (result0 && result1 == nil) == pailverify(pf, bvheap(), val(pkN), val(k), px(ecdsaPub), py(ecdsaPub))
 
 //@ func (*PrivateKey).Proof
-//@   trusted prover side of the Paillier key-correctness proof (GenerateXs: goroutines, channels, floats): outside the generator subset; writes nothing the caller can see
+//@   trusted prover side of the Paillier key-correctness proof (big.Int.Exp chain over the private key; GenerateXs itself is under contract): not brought under contract; writes nothing the caller can see
 //@   props C06 C10
 //@   requires privateKey != nil && k != nil && ecdsaPub != nil && wfPoint(ecdsaPub)
 //@   pure
+
+// GenerateXs: Fiat-Shamir challenge derivation of the Paillier key proof. The
+// digests are computed by goroutines (one per 256-bit block) and collected in
+// block order; what the challenge binds is the argument list of the hash call.
+//@ func GenerateXs
+//@   props C12 C06
+//@   deadpoints 1
+//@   requires k != nil && N != nil && ecdsaPub != nil && wfPoint(ecdsaPub) && m >= 0 && m <= 1048576
+//@   site paillier.GenerateXs$1#0 : [C12.challenge-binds-the-whole-prover-key-the-public-key-and-the-modulus] bytes(kb) == be(val(k)) && bytes(sXb) == be(px(ecdsaPub)) && bytes(sYb) == be(py(ecdsaPub)) && bytes(Nb) == be(val(N))
+//@   ensures len(result) == m
+//@   loop 0 invariant len(chs) == blocks && fresh(arr(chs))
+//@   loop 0 invariant len(ret) == m && fresh(arr(ret))
+//@   loop 0 invariant bytes(kb) == be(val(old(k)))
+//@   loop 0 invariant bytes(sXb) == be(px(ecdsaPub))
+//@   loop 0 invariant bytes(sYb) == be(py(ecdsaPub))
+//@   loop 0 invariant bytes(Nb) == be(val(N))
+//@   loop 0 invariant (forall a in 0..$iter :: (chs[a] != nil && fresh(chs[a]) && sent(chs[a]) == 0 && recvd(chs[a]) == 0)) && (forall a in 0..$iter :: forall b in 0..$iter :: (a != b ==> chs[a] != chs[b]))
+//@   loop 1 invariant 0 <= i && i <= m && len(ret) == m && fresh(arr(ret)) && bytes(kb) == be(val(k)) && bytes(sXb) == be(px(ecdsaPub)) && bytes(sYb) == be(py(ecdsaPub)) && bytes(Nb) == be(val(N)) && len(chs) == blocks && fresh(arr(chs)) && (forall a in 0..len(chs) :: (chs[a] != nil && fresh(chs[a]))) && (forall a in 0..len(chs) :: forall b in 0..len(chs) :: (a != b ==> chs[a] != chs[b]))
+//@   loop 1 invariant forall a in 0..len(chs) :: recvd(chs[a]) == sent(chs[a])
+//@   loop 2 invariant 0 <= i && i < m && 0 <= j && j <= blocks && len(ret) == m && fresh(arr(ret)) && bytes(kb) == be(val(k)) && bytes(sXb) == be(px(ecdsaPub)) && bytes(sYb) == be(py(ecdsaPub)) && bytes(Nb) == be(val(N)) && len(chs) == blocks && fresh(arr(chs)) && (forall a in 0..len(chs) :: (chs[a] != nil && fresh(chs[a]))) && (forall a in 0..len(chs) :: forall b in 0..len(chs) :: (a != b ==> chs[a] != chs[b])) && fresh(arr(xi)) && len(xi) == 0 && arr(xi) != arr(kb) && arr(xi) != arr(sXb) && arr(xi) != arr(sYb) && arr(xi) != arr(Nb)
+//@   loop 2 invariant forall a in 0..len(chs) :: ((a < j ==> (sent(chs[a]) == recvd(chs[a]) + 1 && !isnil(as(sentv(chs[a], recvd(chs[a])), "[]byte")))) && (a >= j ==> recvd(chs[a]) == sent(chs[a])))
+//@   loop 3 invariant 0 <= i && i < m && len(ret) == m && fresh(arr(ret))
+//@   loop 3 invariant bytes(kb) == be(val(k))
+//@   loop 3 invariant bytes(sXb) == be(px(ecdsaPub)) && bytes(sYb) == be(py(ecdsaPub)) && bytes(Nb) == be(val(N))
+//@   loop 3 invariant len(chs) == blocks && fresh(arr(chs)) && (forall a in 0..len(chs) :: (chs[a] != nil && fresh(chs[a]))) && (forall a in 0..len(chs) :: forall b in 0..len(chs) :: (a != b ==> chs[a] != chs[b]))
+//@   loop 3 invariant fresh(arr(xi)) && arr(xi) != arr(kb) && arr(xi) != arr(sXb) && arr(xi) != arr(sYb) && arr(xi) != arr(Nb)
+//@   loop 3 invariant forall a in 0..len(chs) :: ((a >= $iter ==> (sent(chs[a]) == recvd(chs[a]) + 1 && !isnil(as(sentv(chs[a], recvd(chs[a])), "[]byte")))) && (a < $iter ==> recvd(chs[a]) == sent(chs[a])))
+
+//@ func GenerateXs$1
+//@   props C12 C06
+//@   requires 0 <= j && j < len(chs) && chs[j] != nil
+//@   modifies sent(chs[j])
+//@   site common.SHA512_256#0 : [C12.challenge-input-is-(i,j,n,k,X,Y,N)] len($arg0) == 7 && bytes($arg0[0]) == bytes(ib) && bytes($arg0[2]) == bytes(nb) && bytes($arg0[3]) == bytes(kb) && bytes($arg0[4]) == bytes(sXb) && bytes($arg0[5]) == bytes(sYb) && bytes($arg0[6]) == bytes(Nb)
+//@   ensures sent(chs[j]) == old(sent(chs[j])) + 1
+//@   ensures !isnil(as(sentv(chs[j], old(sent(chs[j]))), "[]byte")) && len(as(sentv(chs[j], old(sent(chs[j]))), "[]byte")) == 32
